@@ -21,7 +21,7 @@ def add(pid, category, technique, text, note, ref):
 
 
 sys.path.insert(0, str(ROOT / "tools"))
-from manifest_entries import register  # noqa: E402
+from manifest_entries import register, EXTRA, COMMON  # noqa: E402
 
 register(add)
 
@@ -44,7 +44,7 @@ def main():
                 "engine": "rtmon",
                 "level_claimed": {
                     "category": c["category"],
-                    "text": c["text"],
+                    "text": c["text"] + EXTRA.get(pid, "") + COMMON,
                     "design_ref": c["ref"],
                 },
                 "level_note": c["note"],
